@@ -99,7 +99,12 @@ pub fn default_hash<B: Hash>(v: &B) -> u64 {
     h.finish()
 }
 
-/// An iterator over bits whose size_hint lower bound can lie.
+/// `lie` values from here on encode honest hints: `(0, Some(remaining + slack))`
+pub const LOOSE_UPPER: usize = 1 << 20;
+/// ... and `(remaining - slack, Some(remaining + slack))`
+pub const LOOSE_BOTH: usize = 1 << 21;
+
+/// An iterator over bits whose size_hint is exact, loose, or lies.
 pub struct LyingIter<'a> {
     bits: &'a [u8],
     pos: usize,
@@ -113,12 +118,14 @@ impl<'a> Iterator for LyingIter<'a> {
         b
     }
     fn size_hint(&self) -> (usize, Option<usize>) {
+        let r = self.bits.len().saturating_sub(self.pos);
         match self.lie {
+            // honest but loose hints (what filter / take_while / skip_while report)
+            Some(l) if l >= LOOSE_BOTH => (r.saturating_sub(l - LOOSE_BOTH), Some(r + (l - LOOSE_BOTH))),
+            Some(l) if l >= LOOSE_UPPER => (0, Some(r + (l - LOOSE_UPPER))),
+            // a lower bound that may lie in either direction, no upper bound
             Some(l) => (l, None),
-            None => {
-                let r = self.bits.len().saturating_sub(self.pos);
-                (r, Some(r))
-            }
+            None => (r, Some(r)),
         }
     }
 }
